@@ -856,4 +856,7 @@ def run(ck, tier):
     for kind in ('tcp', 'rtu', 'ascii', 'binary'):
         kcls, kf, kfps = _fpaths(cx, kind)
         ck.guard(_r6h, ck, cx, kind, kcls, kf, kfps, 'R21')
+    from .. import options as _opt
+    ck.guard(_opt.rule_options_read_at_construction, ck, cx, 'R22', ('pymodbus.transaction', 'pymodbus.client.sync'), ('Retries', 'RetryOnEmpty', 'RetryOnInvalid', 'Backoff', 'Timeout', 'Strict'),
+             'the retry policy / time budget the application configured is not the one the client runs with')
     return cx.idx
